@@ -196,6 +196,22 @@ def jacobian_cases(cell, gdim, rng, full):
     if t > 1:
         out.append(("I_fixed_zero", Sum(prod(IX(It, 0, 1), x), x)))
     out.append(("I_I", SUM(prod(IX(It, i, j), IX(It, j, l)), j)))
+    # diagonal entries Identity[k,k] / trace-like contractions next to other k-dependent factors:
+    # a diagonal entry is NOT a Kronecker delta
+    out.append(("diag_v", SUM(prod(IX(It, j, j), IX(vt, j)), j)))
+    out.append(("diag_vw", SUM(prod(IX(vt, j), IX(It, j, j), IX(wt, j)), j)))
+    out.append(("diag_A", SUM(prod(IX(Att, j, j), IX(It, j, j)), j)))
+    out.append(("trace_v", SUM(prod(IX(vt, i), SUM(prod(IX(K, i, k), IX(J, k, i)), k)), i)))
+    out.append(("trace_v2", SUM(SUM(prod(IX(K, i, k), IX(J, k, i), IX(vt, i)), k), i)))
+    out.append(("trace_JK_v", SUM(prod(IX(vg, i), SUM(prod(IX(J, i, k), IX(K, k, i)), k)), i)))
+    out.append(("diag_free", prod(IX(It, i, i), IX(vt, i))))
+    # an index that is free in one factor is bound inside a sibling factor (not hygienic, legal UFL)
+    out.append(("nh_push_K", SUM(prod(IX(K, j, k), SUM(prod(IX(J, k, j), IX(vt, j)), j)), k)))
+    out.append(("nh_push_K2", SUM(prod(SUM(prod(IX(vt, j), IX(J, k, j)), j), IX(K, j, k)), k)))
+    out.append(("nh_push_I", SUM(prod(IX(It, j, k), SUM(prod(IX(Att, k, j), IX(vt, j)), j)), k)))
+    out.append(("nh_elim", SUM(prod(IX(It, i, k), SUM(IX(Att, i, k), i)), k)))
+    if g == t:
+        out.append(("nh_push_J", SUM(prod(IX(J, j, k), SUM(prod(IX(K, k, j), IX(vt, j)), j)), k)))
     # several contractions in ONE expression that share their dummy index OBJECTS but pair them with
     # different free indices (the substitution k -> a of one elimination must not leak into the next)
     a_, b_ = Index(), Index()
@@ -296,8 +312,11 @@ def random_reciprocals(rng, count):
     return out
 
 
-def real_exponent_cases():
-    """validated numerically only (kpow is uninterpreted in the abstract algebra)"""
+def real_exponent_cases(rng, count):
+    """Products with real (non-integer) exponents, including nested powers (x**a)**b with every
+    combination of even / odd inner and fractional / integral outer exponent.  kpow is an
+    uninterpreted symbol of the abstract algebra, so these are validated numerically only, with
+    the float oracle `real_mismatch` that also samples NEGATIVE bases."""
     dom = uflgen.mesh("triangle", 2)
     d = JacobianDeterminant(dom)
     x = uflgen.coef(())
@@ -307,7 +326,68 @@ def real_exponent_cases():
            ("d05_rd05", prod(Power(d, F(0.5)), Division(one, Power(d, F(0.5))))),
            ("d20_rd", prod(Power(d, F(2.0)), Division(one, d))),
            ("x25_rx05", prod(Power(x, F(2.5)), Power(Division(one, x), F(0.5))))]
-    return [("rx_" + n, e) for n, e in out]
+    inner = [1, 2, 3, 4, 6]
+    outer = [0.5, 1.5, 0.25, 2.0, 2, 3, 1.0 / 3]
+    recips = [lambda b: Division(one, b), lambda b: Power(Division(one, b), IntValue(2)),
+              lambda b: Division(one, Power(b, IntValue(3))), lambda b: b]
+    combos = [(b, ai, co, r) for b in (d, x) for ai in inner for co in outer for r in range(len(recips))]
+    rng.shuffle(combos)
+    for q, (b, ai, co, r) in enumerate(combos[:count]):
+        ib = b if ai == 1 else Power(b, IntValue(ai))
+        e = prod(Power(ib, F(co) if isinstance(co, float) else IntValue(co)), recips[r](b))
+        out.append((f"pp{q}_{ai}_{co:.3g}_{r}", e))
+    return [("rx_" + n, e) for n, e in out if isinstance(e, Product)]
+
+
+def real_mismatch(o, e):
+    """float oracle for closed scalar expressions over scalar coefficients / detJ / literals with
+    Product, Division, Power, Sum: every scalar terminal ranges over positive AND negative values;
+    a sample where the input is undefined over the reals (negative base, fractional exponent) is
+    skipped; the output must be defined and equal wherever the input is."""
+    import math
+
+    terms = []
+    for z in list(unique_pre_traversal(e)) + list(unique_pre_traversal(o)):
+        if z._ufl_is_terminal_ and not isinstance(z, ufl.classes.ScalarValue | MultiIndex) and z not in terms:
+            if z.ufl_shape != ():
+                return None
+            terms.append(z)
+
+    def ev(z, val):
+        n = type(z).__name__
+        if z in val:
+            return val[z]
+        if isinstance(z, ufl.classes.ScalarValue):
+            return float(z._value)
+        a = [ev(q, val) for q in z.ufl_operands]
+        if n == "Product":
+            return a[0] * a[1]
+        if n == "Sum":
+            return a[0] + a[1]
+        if n == "Division":
+            return a[0] / a[1]
+        if n == "Power":
+            return math.pow(a[0], a[1])
+        raise KeyError(n)
+    for vals in itertools.product([-2.0, 0.5, -0.75, 3.0], repeat=len(terms)):
+        val = dict(zip(terms, vals))
+        try:
+            want = ev(e, val)
+        except (ValueError, ZeroDivisionError, OverflowError):
+            continue
+        except KeyError:
+            return None
+        try:
+            got = ev(o, val)
+        except (ValueError, ZeroDivisionError, OverflowError) as ex:
+            return {"kind": "value", "terminal_values": {str(k): v for k, v in val.items()},
+                    "expected_value": want, "implementation_value": f"undefined ({ex})"}
+        except KeyError:
+            return None
+        if abs(got - want) > 1e-9 * (1 + abs(want)):
+            return {"kind": "value", "terminal_values": {str(k): v for k, v in val.items()},
+                    "expected_value": want, "implementation_value": got}
+    return None
 
 
 def witness_recip():
@@ -321,6 +401,30 @@ def witness_capture():
     i, j = Index(), Index()
     It = Identity(2)
     return SUM(prod(IX(It, i, j), SUM(IX(A, i, j), i)), j)
+
+
+def witness_push():
+    dom = uflgen.mesh("triangle", 2)
+    J, K = Jacobian(dom), JacobianInverse(dom)
+    gv = uflgen.coef((2,))
+    j, k = Index(), Index()
+    return SUM(prod(IX(K, j, k), SUM(prod(IX(J, k, j), IX(gv, j)), j)), k)
+
+
+def push_capture_class(e):
+    """class predicate of the finding indexsum-push-capture (decidable on the input): some IndexSum
+    over k has, among the factors of its summand, an Indexed factor f1 and an IndexSum over j such
+    that j is a free index of f1 (pushing f1 under the inner sum captures j)"""
+    from ufl.algorithms.cancel_jacobian_products import _flatten_product
+    for x in unique_pre_traversal(e):
+        if isinstance(x, IndexSum):
+            fs = _flatten_product(x.ufl_operands[0], [])
+            for f2 in fs:
+                if isinstance(f2, IndexSum):
+                    (j,) = f2.ufl_operands[1]
+                    if any(isinstance(f1, Indexed) and j.count() in f1.ufl_free_indices for f1 in fs if f1 is not f2):
+                        return True
+    return False
 
 
 def pow_of_pow_noninteger(e):
@@ -439,6 +543,18 @@ def main(run):
             live.add("identity-eliminator-capture")
             run.known(f"id=identity-eliminator-capture cancel_jacobian_products({e}) = {o}: {w['kind']} differs")
 
+    if "indexsum-push-capture" in known:
+        e = witness_push()
+        try:
+            o = cancel_jacobian_products(e)
+            w = oracle(o, e, trials=4, seed=1)
+        except Exception as ex:  # noqa: BLE001
+            o, w = None, {"kind": "exception", "exception": repr(ex)}
+        if w:
+            live.add("indexsum-push-capture")
+            run.known(f"id=indexsum-push-capture cancel_jacobian_products({e}) = {o}: {w['kind']} differs "
+                      f"(implementation {w.get('implementation')}, expected {w.get('expected')})")
+
     rng = random.Random(f"{run.seed}-C09")
     full = run.tier == "thorough"
     todo = []
@@ -455,6 +571,13 @@ def main(run):
     # random index-notation expressions with Identity / K / J leaves mixed in (hygienic + reuse)
     todo += random_cases(run, rng)
 
+    def known_class(e):
+        if "indexsum-push-capture" in live and push_capture_class(e):
+            return "indexsum-push-capture"
+        if "identity-eliminator-capture" in live and not C10_gen.hygienic(e):
+            return "identity-eliminator-capture"
+        return None
+
     cases = []
     stats = {"cases": 0, "changed_by_pass": 0, "known_instances": {}, "numeric_only": 0}
     for nm, e, nz, note in todo:
@@ -463,9 +586,9 @@ def main(run):
         try:
             o = cancel_jacobian_products(e)
         except Exception as ex:  # noqa: BLE001
-            if not C10_gen.hygienic(e) and "identity-eliminator-capture" in live:
-                stats["known_instances"]["identity-eliminator-capture"] = \
-                    stats["known_instances"].get("identity-eliminator-capture", 0) + 1
+            kc = known_class(e)
+            if kc:
+                stats["known_instances"][kc] = stats["known_instances"].get(kc, 0) + 1
                 continue
             run.violation({"case": nm, "note": note, "input": str(e), "input_repr": repr(e)[:3000],
                            "witness": {"kind": "exception", "exception": repr(ex)}, "reproduce": "bin/check C09"}, True)
@@ -474,9 +597,9 @@ def main(run):
             stats["changed_by_pass"] += 1
         w = oracle(o, e, trials=4, seed=run.seed)
         if w:
-            if not C10_gen.hygienic(e) and "identity-eliminator-capture" in live:
-                stats["known_instances"]["identity-eliminator-capture"] = \
-                    stats["known_instances"].get("identity-eliminator-capture", 0) + 1
+            kc = known_class(e)
+            if kc:
+                stats["known_instances"][kc] = stats["known_instances"].get(kc, 0) + 1
                 continue
             run.violation({"case": nm, "note": note, "input": str(e), "input_repr": repr(e)[:3000],
                            "output": str(o)[:3000], "witness": w, "reproduce": "bin/check C09"}, True)
@@ -489,10 +612,11 @@ def main(run):
         cases.append(make_case(nm, e, o, nz, note))
         run.count_case((nm, str(e)))
     # real exponents: numeric validation only
-    for nm, e in real_exponent_cases():
+    for nm, e in real_exponent_cases(rng, 40 if not full else 200):
         o = cancel_jacobian_products(e)
-        w = C10_lib.mismatch(o, e, trials=8, seed=run.seed, env_factory=env_factory)
+        w = real_mismatch(o, e) or C10_lib.mismatch(o, e, trials=4, seed=run.seed, env_factory=env_factory)
         stats["numeric_only"] += 1
+        run.count_case((nm, str(e)))
         if w:
             run.violation({"case": nm, "input": str(e), "output": str(o), "witness": w,
                            "note": "real exponent (numeric validation)", "reproduce": "bin/check C09"}, True)
@@ -582,13 +706,20 @@ def random_cases(run, rng):
             i = g.pool[0]
         try:
             body = g.scalar({j: 2}, 2)
-            kind = r.choice(["I", "KJ", "I_l", "KJ_push", "pair", "pair"])
+            kind = r.choice(["I", "KJ", "I_l", "KJ_push", "pair", "pair", "diag", "trace", "nh_push"])
             if kind == "I":
                 e = SUM(prod(IX(It, i, j), body), j)
             elif kind == "I_l":
                 e = SUM(prod(body, IX(It, j, i)), j)
             elif kind == "KJ":
                 e = SUM(SUM(prod(IX(K, i, k), IX(J, k, j), body), k), j)
+            elif kind == "diag":
+                e = SUM(prod(IX(It, j, j), body), j)
+            elif kind == "trace":
+                e = SUM(prod(body, SUM(prod(IX(K, j, k), IX(J, k, j)), k)), j)
+            elif kind == "nh_push":
+                # the pushed factor's free index is the dummy of the inner sum
+                e = SUM(prod(IX(K, j, k), SUM(prod(IX(J, k, j), body), j)), k)
             elif kind == "pair":
                 # two eliminations over the same dummy object j with different free partners
                 i2 = Index()
